@@ -24,6 +24,7 @@ import (
 	_ "github.com/tencent/goom/verifsim/worlds/concw"
 	_ "github.com/tencent/goom/verifsim/worlds/hist"
 	_ "github.com/tencent/goom/verifsim/worlds/ifacew"
+	_ "github.com/tencent/goom/verifsim/worlds/logw"
 	_ "github.com/tencent/goom/verifsim/worlds/memw"
 	_ "github.com/tencent/goom/verifsim/worlds/originw"
 	_ "github.com/tencent/goom/verifsim/worlds/spacew"
